@@ -731,6 +731,11 @@ class FuncTranslator:
                 return ('(%d : Int)' % len(tuple_parts(t)), 'int')
             raise Unsupported('len of ' + t)
         if n == 'int':
+            if len(args) == 1 and not e.keywords and isinstance(args[0], ast.IfExp):
+                # int(a if c else b) == (int(a) if c else int(b))
+                a0 = args[0]
+                mk = lambda x: ast.Call(func=ast.Name(id='int', ctx=ast.Load()), args=[x], keywords=[])
+                return self.expr(ast.IfExp(test=a0.test, body=mk(a0.body), orelse=mk(a0.orelse)))
             if len(args) == 1 and not e.keywords:
                 v, t = self.expr(args[0])
                 if t == 'str':
@@ -806,6 +811,15 @@ class FuncTranslator:
         if n == 'dict':
             if not args and not e.keywords:
                 return ('[]', 'dict[?,?]')
+            if not args and e.keywords and all(k.arg for k in e.keywords):
+                vals = [self.expr(k.value) for k in e.keywords]
+                vt = None
+                for _, t in vals:
+                    vt = unify(vt, t)
+                if vt == 'any':
+                    raise Unsupported('heterogeneous dict()')
+                pairs = ', '.join('(%s, %s)' % (lit_str(k.arg), self.coerce(v, t, vt)) for k, (v, t) in zip(e.keywords, vals))
+                return ('(Py.dictOfPairs [%s])' % pairs, t_dict('str', vt))
             if len(args) == 1 and not e.keywords:
                 v, t = self.expr(args[0])
                 if is_dict(t):
@@ -1170,6 +1184,11 @@ class FuncTranslator:
             return ln
         ln, ct = cur
         u = unify(self.var_decl.get(ln, ct), t)
+        declared = self.var_decl.get(ln, ct)
+        if is_opt(declared) and not is_opt(t) and t != 'none' and opt_inner(declared) == t and ind == 1 and not self.loop_depth \
+                and ln in getattr(self, 'param_names', ()):
+            # `x = x or DEFAULT` on an Optional parameter: from here on the variable is not None (new version)
+            u = 'any'
         if u != 'any':
             self.var_decl[ln] = u
             self.env[name] = (ln, u if self.final is None else self.final.get(ln, u))
@@ -1232,9 +1251,58 @@ class FuncTranslator:
             raise Unsupported('subscript store on ' + dt)
         raise Unsupported('assignment target ' + type(target).__name__)
 
+    def pop_pattern(self, st, ind):
+        """`t = L.pop(i?)` / `t = L.pop(i?) if L else DEFAULT` on a local list L (i is 0 or absent)"""
+        if len(st.targets) != 1 or not isinstance(st.targets[0], ast.Name):
+            return None
+        val = st.value
+        default = None
+        if isinstance(val, ast.IfExp):
+            if not (isinstance(val.test, ast.Name) and isinstance(val.body, ast.Call)):
+                return None
+            call, guard, default = val.body, val.test.id, val.orelse
+        else:
+            call, guard = val, None
+        if not (isinstance(call, ast.Call) and isinstance(call.func, ast.Attribute) and call.func.attr == 'pop'
+                and isinstance(call.func.value, ast.Name) and not call.keywords):
+            return None
+        lname = call.func.value.id
+        got = self.lookup(lname)
+        if not got or not is_list(got[1]) or (guard is not None and guard != lname):
+            return None
+        if len(call.args) == 0:
+            first = False
+        elif len(call.args) == 1 and isinstance(call.args[0], ast.Constant) and call.args[0].value == 0:
+            first = True
+        else:
+            return None
+        ln, lt = got
+        et = elem(lt)
+        p = '  ' * ind
+        h, tl = self.fresh('h'), self.fresh('t')
+        out = []
+        if first:
+            out.append(p + 'match (%s : %s) with' % (ln, lean_type(lt)))
+            out.append(p + '| %s :: %s =>' % (h, tl))
+        else:
+            out.append(p + 'match (%s : %s).reverse with' % (ln, lean_type(lt)))
+            out.append(p + '| %s :: %s =>' % (h, tl))
+        out += self.assign_to(st.targets[0], h, et, ind + 1)
+        out.append(p + '  %s := %s' % (ln, tl if first else '(%s).reverse' % tl))
+        out.append(p + '| [] =>')
+        if default is not None:
+            dv, dt = self.expr(default)
+            out += self.assign_to(st.targets[0], dv, dt, ind + 1)
+        else:
+            out.append(p + '  Py.raise .indexError')
+        return out
+
     def s_Assign(self, st, ind):
         if len(st.targets) != 1:
             raise Unsupported('chained assignment')
+        pp = self.pop_pattern(st, ind)
+        if pp is not None:
+            return pp
         self.last_pattern = None
         v, t = self.expr(st.value)
         if isinstance(st.targets[0], ast.Name) and t in ('match', 'opt[match]'):
